@@ -139,17 +139,19 @@ func (sm *stateMachine) executeAction(t *T) bool {
 }
 
 func runAction(t *T, action func(*T)) (invalid bool, skipped bool) {
-	defer func(draws int) {
+	defer func(pos int) {
 		if r := recover(); r != nil {
 			// a skip does not undo a non-fatal failure signaled before it
 			if _, ok := r.(invalidData); ok && !t.Failed() {
 				invalid = true
-				skipped = t.draws == draws
+				// an action that used the bitstream before becoming invalid (e.g. an unfinished draw)
+				// is a rejected step, whose data is discarded as a whole, and not a skipped one
+				skipped = t.s.pos() == pos
 			} else {
 				panic(r)
 			}
 		}
-	}(t.draws)
+	}(t.s.pos())
 
 	action(t)
 	t.failOnError()
